@@ -56,8 +56,8 @@ TempoList(f) ==
     LET ev == SortTempo(f, TempoEvents(f)) IN
     IF ev # <<>> /\ ev[1].p = 0 THEN ev ELSE << [p |-> 0, bl |-> f.bpm0] >> \o ev
 
-PairTicks(f, x) == BeatToTicks(TempoList(f), 0, 4 * M(f, x) + (4 * I(f, x)) \div D(f, x), (4 * I(f, x)) % D(f, x), D(f, x))
-PairBl(f, x) == BlAt(TempoList(f), 4 * M(f, x) + (4 * I(f, x)) \div D(f, x), (4 * I(f, x)) % D(f, x), D(f, x))
+PairTicksTL(f, tl, x) == BeatToTicks(tl, 0, 4 * M(f, x) + (4 * I(f, x)) \div D(f, x), (4 * I(f, x)) % D(f, x), D(f, x))
+PairBlTL(f, tl, x) == BlAt(tl, 4 * M(f, x) + (4 * I(f, x)) \div D(f, x), (4 * I(f, x)) % D(f, x), D(f, x))
 
 Wav(f, id) == LET S == { i \in DOMAIN f.wavs : f.wavs[i].id = id } IN IF S = {} THEN "" ELSE f.wavs[CHOOSE i \in S : TRUE].file
 
@@ -78,11 +78,16 @@ Fold(f, evs, prev, acc) ==
 LaneObjs(f, lay, col) == Fold(f, Ordered(f, Lane(f, lay, col)), <<>>, [hits |-> {}, holds |-> {}, bad |-> FALSE])
 Cols(lay) == { lay[c] : c \in DOMAIN lay }
 
-DenHits(f, lay) == UNION { { [t |-> PairTicks(f, x), c |-> col, sample |-> Wav(f, Id(f, x)), bl |-> PairBl(f, x)] :
-                             x \in LaneObjs(f, lay, col).hits } : col \in Cols(lay) }
-DenHolds(f, lay) == UNION { { [t |-> PairTicks(f, p[1]), c |-> col, n |-> PairTicks(f, p[2]) - PairTicks(f, p[1]),
-                               sample |-> Wav(f, Id(f, p[1])), bl |-> Max2(PairBl(f, p[1]), PairBl(f, p[2]))] :
-                              p \in LaneObjs(f, lay, col).holds } : col \in Cols(lay) }
+(* the tempo list is computed once per denotation (TLC does not memoise operator applications) *)
+DenHits(f, lay) ==
+    LET tl == TempoList(f) IN
+    UNION { { [t |-> PairTicksTL(f, tl, x), c |-> col, sample |-> Wav(f, Id(f, x)), bl |-> PairBlTL(f, tl, x)] :
+              x \in LaneObjs(f, lay, col).hits } : col \in Cols(lay) }
+DenHolds(f, lay) ==
+    LET tl == TempoList(f) IN
+    UNION { { [t |-> PairTicksTL(f, tl, p[1]), c |-> col, n |-> PairTicksTL(f, tl, p[2]) - PairTicksTL(f, tl, p[1]),
+               sample |-> Wav(f, Id(f, p[1])), bl |-> Max2(PairBlTL(f, tl, p[1]), PairBlTL(f, tl, p[2]))] :
+              p \in LaneObjs(f, lay, col).holds } : col \in Cols(lay) }
 Paired(f, lay) == \A col \in Cols(lay) : ~LaneObjs(f, lay, col).bad
 
 NotesMatch(D0, lst, tol(_), withSample) ==
